@@ -79,7 +79,7 @@ KIND_ARGS = {
     "pie": ["-pie", "--export-dynamic", "--dynamic-linker", "/lib64/ld-linux-x86-64.so.2"],
     "spie": ["-pie", "--export-dynamic"],
 }
-LARGE_QUICK = [4097, 8191, 8192, 8193, 65537]
+LARGE_QUICK = [4097, 8191, 8192, 8193, 65537]      # 65537: --hash-style=both only
 LARGE_THOROUGH = [1599, 1601, 4095, 4096, 4097, 8191, 8192, 8193, 16385, 65535, 65536, 65537]
 VERSION_SCRIPT = "V1 { };\nV2 { } V1;\n"
 
@@ -187,15 +187,32 @@ def make_inputs(d, pads=(1, 33, 300)):
     o.write(os.path.join(d, "nil.o"))
     _obj(os.path.join(d, "ver.o"), ["f@V1", "f@@V2"])
     for k in pads:
-        _obj(os.path.join(d, f"pad{k}.o"), pad_names(k), tls=["tls0"],
-             abssyms=[("abs0", 0), ("abs5", 5)])
+        dst = os.path.join(d, f"pad{k}.o")
+        if k < 1000:
+            _obj(dst, pad_names(k), tls=["tls0"], abssyms=[("abs0", 0), ("abs5", 5)])
+            continue
+        # Large objects take seconds to generate: kept in the object cache (content is a pure
+        # function of k and of this generator's version tag).
+        os.makedirs(vlib.OBJCACHE, exist_ok=True)
+        cached = os.path.join(vlib.OBJCACHE, f"c08pad{k}.v1.o")
+        if not os.path.exists(cached):
+            tmp = cached + f".{os.getpid()}"
+            _obj(tmp, pad_names(k), tls=["tls0"], abssyms=[("abs0", 0), ("abs5", 5)])
+            os.replace(tmp, cached)
+        if not os.path.exists(dst):
+            os.symlink(cached, dst)
     with open(os.path.join(d, "v.map"), "w") as f:
         f.write(VERSION_SCRIPT)
 
 
 def member_argv(m, out):
     mask, style, kind, pad, versioned = m
-    argv = list(KIND_ARGS[kind]) + [f"--hash-style={style}", "nil.o"]
+    # Members without padding have <= 14 dynamic symbols; wild's only thread-dependent quantity on
+    # this path (dynsym writer chunk = max(10, n/10/threads)) is 10 for them at any thread count,
+    # so they are linked with --threads=1 (twice the throughput: 16 servers do not fight for
+    # cores). Everything else runs with wild's default thread count.
+    argv = (["--threads=1"] if pad == 0 else []) + list(KIND_ARGS[kind]) + \
+        [f"--hash-style={style}", "nil.o"]
     if kind != "shared":
         argv.append("start.o")
     argv += [f"p{i}.o" for i in range(len(POOL)) if mask >> i & 1]
@@ -498,6 +515,8 @@ class Loaded:
                 raw = struct.unpack_from("<%dI" % (self.nsyms - g["symbias"]), self.data,
                                          g["chain_begin"])
                 bks = [dl_new_hash(self.sym(i)[0]) % nb for i in range(g["symbias"], self.nsyms)]
+                # Chain indices (multiples of 1024) at which a chunked writer would cut a bucket.
+                self.straddled = [k for k in range(1024, len(bks), 1024) if bks[k - 1] == bks[k]]
                 for k, c in enumerate(raw):
                     last = k + 1 == len(raw) or bks[k + 1] != bks[k]
                     if c & 1 and not last:
@@ -654,6 +673,7 @@ def judge(path, m):
                                  f"{L.sym(j)[0][:40]!r}"))
                     break
     stats["lookups"] = look
+    stats["straddled"] = getattr(L, "straddled", [])
     stats["digest"] = L.table_digest()
     # Longest chain in each table (non-triviality).
     mx = 0
@@ -871,9 +891,12 @@ def large_members(thorough):
     """The whole pool + N generated names (+ TLS / absolute extras)."""
     ns = LARGE_THOROUGH if thorough else LARGE_QUICK
     vers = (0, 1) if thorough else (0,)
-    return [((1 << len(POOL)) - 1, style, kind, n, v)
-            for n in sorted(ns, reverse=True) for style in STYLES for kind in ("shared", "pie")
-            for v in vers]
+    out = [((1 << len(POOL)) - 1, style, kind, n, v)
+           for n in sorted(ns, reverse=True) for style in STYLES for kind in ("shared", "pie")
+           for v in vers]
+    if not thorough:                        # quick: the 65537-name outputs only with both tables
+        out = [m for m in out if m[3] < 60000 or m[1] == "both"]
+    return out
 
 
 def describe(m):
@@ -924,6 +947,7 @@ def main():
     large = large_members(chk.thorough)
     large_ns = sorted({m[3] for m in large})
     n_eval = 0
+    straddled = set()
     digests = set()
     shapes_gnu, shapes_sysv = set(), set()
     tot = dict(lookups=0, strcmp_rejects=0, chain_steps=0, bloom_pass=0, bloom_positive_absent=0)
@@ -942,13 +966,12 @@ def main():
 
         make_inputs(os.path.join(base, "in"), pads=[1, 33, 300] + large_ns)
         lap("inputs")
-        # The large members first and one per task (the biggest take seconds each).
-        results = list(vlib.pmap_unordered(run_member, [(base, m, None) for m in large]))
-        n_large = len(results)
-        large_syms = sum(r[4].get("n_defined", 0) for r in results)
-        lap("large-tables")
-        results += wildrun.pmap(run_member, [(base, m, None) for m in fam], chunksize=16)
-        lap("pool-family")
+        # One pool for everything; the large members (seconds each) go first, two per task, so
+        # that the other workers get on with the pool family meanwhile.
+        results = wildrun.pmap(run_member, [(base, m, None) for m in large + fam], chunksize=2)
+        n_large = len(large)
+        large_syms = sum(r[4].get("n_defined", 0) for r in results[:n_large])
+        lap("large-tables+pool-family")
         for m, rc, msg, viol, stats, _dl in results:
             n_eval += 1
             if rc != 0:
@@ -969,6 +992,7 @@ def main():
                 shapes_sysv.add(stats["sysv_shape"][0])
             for k in tot:
                 tot[k] += stats.get(k, 0)
+            straddled.update(stats.get("straddled", []))
             if len(samples) < 3 and bin(m[0]).count("1") >= 5 and m[4]:
                 samples.append(dict(describe(m), stats={k: v for k, v in stats.items()
                                                         if k != "digest"}))
@@ -1017,6 +1041,9 @@ def main():
                    "kinds": ["shared", "pie", "spie"] if chk.thorough else ["shared", "pie"],
                    "padding": [0, 1, 33, 300] if chk.thorough else [0], "versioned": [0, 1]},
         "phase_wall_s": phase,
+        "chain_indices_multiple_of_1024_inside_a_bucket_run": sorted(straddled),
+        "power_of_two_chain_indices_inside_a_bucket_run":
+            sorted(k for k in straddled if k & (k - 1) == 0),
         "large_table_members": n_large,
         "large_table_export_counts": large_ns,
         "large_table_symbols_each_looked_up_in_every_table": large_syms,
@@ -1033,7 +1060,7 @@ def main():
         "glibc_dlopen": dl_stats,
         "subprocesses": dl_stats["processes"],
         "thinning": ("quick: pool of the first 8 names, no padding, no static-pie flavour; large "
-                     "tables: N in 4097, 8191, 8192, 8193, 65537, unversioned"
+                     "tables: N in 4097, 8191, 8192, 8193 (all styles), 65537 (--hash-style=both), unversioned"
                      if not chk.thorough else
                      "static-pie flavour only with paddings 0 and 33, otherwise none for the transcription "
                      "oracle; glibc dlopen stage: -shared members of the "
